@@ -50,7 +50,7 @@ PROBES = ['listed_started', 'background_started', 'repeat_while_running',
           'unlisted_request', 'hostile_request_404', 'stop_named',
           'stop_current', 'stop_all', 'status_page', 'capture_page',
           'hostile_manifest_string', 'job_completed_between_requests',
-          'off_page']
+          'off_page', 'empty_light_set']
 WALL_CAP = {'quick': 150, 'thorough': 1500}
 
 STATIC = ('capture', 'off', 'status', 'stop-current', 'stop-all')
@@ -199,6 +199,9 @@ def gen(rng, tier, index):
                  {'path': '/', 'pause': 1.0}]
         k = rng.randint(0, len(reqs))
         reqs[k:k] = burst
+    if any(r['path'] in ('/status', '/capture') for r in reqs) and \
+            rng.random() < 0.2:
+        pop = []        # nothing answers the discovery: an empty light set
     return {'policy': policy.draw_policy(rng, est_len=600, stalls=False),
             'population': pop, 'tick': rng.choice([0.05, 0.1, 0.5]),
             'manifest': manifest, 'scripts': scripts, 'requests': reqs}
@@ -264,6 +267,8 @@ def execute(scenario, chooser):
                       'manifest_file_name': 'manifest.json',
                       'path_root': '/'})
         st['net'] = net
+        if not sc['population']:
+            probes['empty_light_set'] = 1
         jlog = []
         st['jlog'] = jlog
         inst = {}           # id(agent) -> index of its hand-over in jlog
@@ -275,6 +280,17 @@ def execute(scenario, chooser):
             for a in agents_alive_all:
                 t = world.thread_of_agent(sim, a)
                 if t is None or t.state != 'done':
+                    out.append(inst.get(id(a)))
+            return out
+
+        def live_instances():
+            """Hand-overs that have a thread which has not ended (from just
+            before the script body to the end of the completion
+            callback)."""
+            out = []
+            for a in agents_alive_all:
+                t = world.thread_of_agent(sim, a)
+                if t is not None and t.state != 'done':
                     out.append(inst.get(id(a)))
             return out
 
@@ -360,6 +376,7 @@ def execute(scenario, chooser):
                  'running_before': _names(jobs),
                  'inst_before': running_instances(),
                  'unfinished_before': unfinished_instances(),
+                 'live_before': live_instances(),
                  'exc': None, 'status': 200}
             try:
                 front_end.blueprint.dispatch(r['path'])
@@ -377,6 +394,8 @@ def execute(scenario, chooser):
             o['queued_after'] = [a.name for a in jobs.get_queued()]
             o['ev1'] = sim.next_event()
             o['inst_after'] = running_instances()
+            o['live_after'] = live_instances()
+            o['unfinished_after'] = unfinished_instances()
             o['running_after'] = _names(jobs)
             obs.append(o)
         # let everything finish: stop what is endless
@@ -761,8 +780,23 @@ def _check_running_flag(c, o, st, violation, where):
     if before != after:
         return                      # a transition during the request
     truth = bool(before)
-    if not truth and any(k in mine for k in o['unfinished_before']):
-        return      # a queued job of that path may have run in between
+    if not truth:
+        # a job of that path between hand-over to a thread and the end of its
+        # completion callback counts as running for the controller; one that
+        # was queued may have run from start to end during the request.  A
+        # job that merely sits in the queue, before and after, is not running.
+        # (another job's completion callback may be half-way through
+        # starting the next one: no verdict while any job thread is outside
+        # its script body)
+        if set(o['live_before']) - set(o['inst_before']) or \
+                set(o['live_after']) - set(o['inst_after']):
+            return
+        for k in mine:
+            if k in o['live_before'] or k in o['live_after']:
+                return
+            if k in o['unfinished_before'] and \
+                    k not in o['unfinished_after']:
+                return
     if bool(c['running']) != truth:
         violation('running-flag-wrong',
                   '{}: the page shows {!r} with running={}, but {} job of '
